@@ -20,7 +20,7 @@ func init() {
 		Doc: "ProcessBlock records a block root in blockSlots only on paths that also create its node and index entry: after the write to blockSlots no path returns before indices is written (every reader relies on `blockSlots[r] = s  =>  indices[{r, s}] exists`); a refusal in between leaves a root that answers GetSlot/ClosestToSlot although it was never inserted and blocks its later re-delivery",
 		Run: ruleInsertTogether})
 	register(&Rule{Name: "finality.pairing", Floor: 1,
-		Doc: "process_justification_and_finalization: each finality rule tests the epoch of one of the two old justified checkpoints against the current epoch and finalizes THAT checkpoint (`oldX.Epoch + k == currentEpoch` => `toFinalize = &oldX`); the four rules are bits[1:4]/prev+3, bits[1:3]/prev+2, bits[0:3]/cur+2, bits[0:2]/cur+1",
+		Doc: "process_justification_and_finalization: each finality rule tests the epoch of one of the two old justified checkpoints against the current epoch and finalizes THAT checkpoint (`oldX.Epoch + k == currentEpoch` => `toFinalize = &oldX`); the four rules are bits[1:4]/prev+3, bits[1:3]/prev+2, bits[0:3]/cur+2, bits[0:2]/cur+1 (rules written some other way — a table walked by a loop — are reported as undecided, not as a deviation)",
 		Run: ruleFinalityPairing})
 	register(&Rule{Name: "make.append", Floor: 20,
 		Doc: "a slice created with make(T, n) (length n, not zero) is filled by index; a slice that is filled with append is created with length 0 (make(T, 0, n)). make(T, n) followed only by appends yields n zero values in front of the data",
@@ -29,7 +29,7 @@ func init() {
 		Doc: "per-fork copies of a BeaconStateView method address the same fields: the sequence of index constants passed to Get/Set (by name: _stateSlot, _nextSyncCommittee, ...) equals that of the nearest predecessor fork's copy. (view.index decides accessors named after their field; this covers methods such as RotateSyncCommittee whose name does not say which field they read)",
 		Run: ruleSiblingIndex})
 	register(&Rule{Name: "epc.source", Floor: 3,
-		Doc: "the cached sync committees of the epochs context are hydrated from the state field of the same name (epc.CurrentSyncCommittee <- state.CurrentSyncCommittee(), epc.NextSyncCommittee <- state.NextSyncCommittee()), or moved from epc.NextSyncCommittee on rotation; values returned by the context's committee getters are shared cache entries and are never handed to a function that writes through its slice parameter",
+		Doc: "the cached sync committees of the epochs context are hydrated from the state field of the same name (epc.CurrentSyncCommittee <- state.CurrentSyncCommittee(), epc.NextSyncCommittee <- state.NextSyncCommittee()), or moved from epc.NextSyncCommittee on rotation; values returned by the context's committee getters are shared cache entries and are never handed to a function that writes through its slice parameter, itself or by handing it on to one that does",
 		Run: ruleEpcSource})
 }
 
@@ -683,6 +683,46 @@ func ruleEpcSource(c *Ctx) {
 			}
 		}
 	})
+	// a function that hands its slice parameter on to one that writes through it writes through it as well
+	for round := 0; round < 3; round++ {
+		c.P.funcDecls(func(p *packages.Package, fd *ast.FuncDecl) {
+			if fd.Body == nil || fd.Type.Params == nil {
+				return
+			}
+			inf := p.TypesInfo
+			f, _ := inf.Defs[fd.Name].(*types.Func)
+			if f == nil || mutators[f] {
+				return
+			}
+			params := map[types.Object]bool{}
+			for _, fld := range fd.Type.Params.List {
+				if ft := inf.TypeOf(fld.Type); ft != nil {
+					if _, isSlice := ft.Underlying().(*types.Slice); isSlice {
+						for _, nm := range fld.Names {
+							params[inf.Defs[nm]] = true
+						}
+					}
+				}
+			}
+			if len(params) == 0 {
+				return
+			}
+			ast.Inspect(fd.Body, func(k ast.Node) bool {
+				call, ok := k.(*ast.CallExpr)
+				if !ok {
+					return true
+				}
+				if g := calleeFunc(inf, call); g != nil && mutators[g] {
+					for _, a := range call.Args {
+						if id, ok := ast.Unparen(a).(*ast.Ident); ok && params[inf.ObjectOf(id)] {
+							mutators[f] = true
+						}
+					}
+				}
+				return true
+			})
+		})
+	}
 	m := 0
 	c.P.funcDecls(func(p *packages.Package, fd *ast.FuncDecl) {
 		if fd.Body == nil || !strings.Contains(p.PkgPath, "/eth2/") {
